@@ -9,6 +9,7 @@ TABLE = [
     ("C19", r"radau|bdf", r"scale\.|restart\.", ["modified_solution_doubling"]),
     ("C09", r"solout", r"exact_zero", ["event_function_scale"]),
     ("C08", r"solout", r"exact_zero", ["event_function_scale"]),
+    ("C08", r"solout", r"events\.|process\.|detect\.", ["events_multi_in_step"]),
     ("C05", r"solout", r"teval\.", ["tiny_time_scale", "teval_terminal"]),
     ("C03", r"dispatch_A", r"zero_length|skipped", ["tiny_time_scale"]),
     ("C06", r"cont_R", r".*", ["tiny_time_scale", "sol_at_every_sample"]),
@@ -32,13 +33,13 @@ TABLE = [
     ("C17", r".*", r".*", ["matrix_dense_model"]),
     ("C16", r"lucx", r"max_tracks|maximal|multipliers", ["complex_multiplier_modulus", "lu_small"]),
     ("C16", r".*", r".*", ["lu_small"]),
-    ("C15", r".*", r".*", ["default_mass"]),
+    ("C15", r".*", r".*", ["default_mass", "banded_jacobian_storage"]),
     ("C05", r".*", r".*", ["teval_terminal"]),
     ("C08", r"solout", r"brent|events\.time|span\.", ["brent_stays_in_bracket"]),
     ("C03", r"solout", r"brent|event_function|events\.time", ["brent_stays_in_bracket"]),
     ("C09", r".*", r"brent", ["brent_stays_in_bracket"]),
     ("C09", r".*", r".*", ["teval_terminal"]),
-    ("C10", r".*", r".*", ["teval_terminal"]),
+    ("C10", r".*", r".*", ["teval_terminal", "events_multi_in_step"]),
     ("C12", r".*", r".*", ["output_options"]),
     ("C13", r".*", r"err\.|norm\.", ["duplication_invariance"]),
     ("C13", r".*", r".*", ["radau_scalar_vector_tol", "duplication_invariance"]),
